@@ -87,7 +87,8 @@ fn spell_char(c: char, on: bool, ch: &mut Chooser, used: &mut Vec<String>) -> St
         return esc(c);
     }
     let b = ch.next();
-    if b < 110 {
+    // white space inside a token is spelled as a character reference more often (a reference starts a text node of its own)
+    if b < if c.is_whitespace() { 50 } else { 110 } {
         return esc(c);
     }
     match b % 4 {
@@ -298,6 +299,33 @@ impl Property for C17 {
             }
             t
         });
+        // white-space runs inside token text (XML white space is collapsed inside tokens however it is spelled)
+        let base = (base, proptest::collection::vec((any::<u16>(), any::<u16>(), sel(&["  ", " \n", "\t ", " \n  ", "\n", " \t\n "])), 0..3)).prop_map(|(mut t, runs)| {
+            let n = t.count_nodes();
+            for (pos, at, run) in runs {
+                let target = (pos as usize * n) >> 16;
+                let mut i = 0;
+                t.walk_mut(&mut |node| {
+                    if i == target && matches!(node.tag.as_str(), "mtext" | "mi" | "ms") {
+                        if let Some(text) = &mut node.text {
+                            let chars: Vec<char> = text.chars().collect();
+                            if chars.len() >= 2 && !chars.iter().any(|c| *c == '\u{a0}') {
+                                let k = 1 + ((at as usize * (chars.len() - 1)) >> 16);
+                                let mut new: String = chars[..k].iter().collect();
+                                // an existing blank at the cut is replaced by the run
+                                let rest: String = chars[k..].iter().collect();
+                                new = new.trim_end_matches(' ').to_string();
+                                new.push_str(run);
+                                new.push_str(rest.trim_start_matches(' '));
+                                *text = new;
+                            }
+                        }
+                    }
+                    i += 1;
+                });
+            }
+            t
+        });
         let ops = proptest::sample::subsequence(VAR_OPS.iter().map(|s| s.to_string()).collect::<Vec<_>>(), 1..=5).prop_map(|mut v| {
             // a prefix and a default namespace declaration are alternatives
             if v.iter().any(|x| x == "prefix") {
@@ -386,6 +414,6 @@ impl Property for C17 {
         (8000, 250000)
     }
     fn rule(&self) -> String {
-        "exhaustive: every entity name of src/entities.in expanded by MathCAT vs the numeric character references of Python's html.entities.html5 expansion; generated: a base expression (G-struct/G-tex) re-spelled by 1-5 of the surface operators {named/decimal/hex character references, namespace prefix, default xmlns, inter-element white space, comments, processing instructions, MathJax class attributes, attribute quoting, token-edge white space}; oracle = canonical MathML (ids normalised), speech and braille identical for base and variant; names in neither table must be rejected with an error naming them; non-trivial = >= 2 operators and the variant string differs".into()
+        "exhaustive: every entity name of src/entities.in expanded by MathCAT vs the numeric character references of Python's html.entities.html5 expansion; generated: a base expression (G-struct/G-tex) (tokens may contain runs of XML white space) re-spelled by 1-5 of the surface operators {named/decimal/hex character references, namespace prefix, default xmlns, inter-element white space, comments, processing instructions, MathJax class attributes, attribute quoting, token-edge white space}; oracle = canonical MathML (ids normalised), speech and braille identical for base and variant; names in neither table must be rejected with an error naming them; non-trivial = >= 2 operators and the variant string differs".into()
     }
 }
